@@ -237,6 +237,15 @@ func (v *Verifier) globalVal(ev *Env, name string) (Val, bool) {
 		return Val{}, false
 	}
 	obj := pkg.Scope().Lookup(name)
+	if obj == nil {
+		if sp := v.spkgs[pkg.Path()]; sp != nil {
+			if g, ok := sp.Members[name].(*ssa.Global); ok {
+				addr := v.globalAddr(ev.c, g)
+				et := g.Type().Underlying().(*types.Pointer).Elem()
+				return ev.c.load(ev.mem, addr, et), true
+			}
+		}
+	}
 	switch o := obj.(type) {
 	case *types.Const:
 		t := o.Type()
@@ -472,6 +481,26 @@ func (v *Verifier) VerifyFunc(fc *FuncContract) (res *FuncResult) {
 	for k, nv := range ex.named {
 		post.vars[k] = nv
 	}
+	// named local variables that live in memory (go/ssa Allocs) can be
+	// mentioned in ensures clauses; they denote the final content.
+	for _, b := range fn.Blocks {
+		for _, in := range b.Instrs {
+			if al, ok := in.(*ssa.Alloc); ok && al.Comment != "" && al.Comment != "complit" && al.Comment != "varargs" {
+				if av, ok := ex.vals[al]; ok {
+					if _, clash := post.vars[al.Comment]; !clash {
+						post.vars[al.Comment] = av
+					}
+				}
+			}
+			if ph, ok := in.(*ssa.Phi); ok && ph.Comment != "" {
+				if pv, ok := ex.vals[ph]; ok {
+					if _, clash := post.vars[ph.Comment]; !clash {
+						post.vars[ph.Comment] = pv
+					}
+				}
+			}
+		}
+	}
 	for _, cn := range fc.CallNames {
 		if !ex.callSeen[cn.Name] {
 			unsup("call clause: call %d of %s not found", cn.Ordinal, cn.Callee)
@@ -512,12 +541,33 @@ func (v *Verifier) VerifyFunc(fc *FuncContract) (res *FuncResult) {
 			}()
 		}
 	}
+	// Each ensures clause is evaluated per return site (in that site's own
+	// state, not in the ite-merged exit state): the goals stay small.
 	for _, en := range fc.Ensures {
-		t, err := post.Goal(en.E)
-		if err != nil {
-			unsup("ensures: %v", err)
+		var parts []Term
+		for _, rt := range ex.rets {
+			penv := post.child()
+			penv.mem = rt.mem
+			for i, rv := range rt.vals {
+				rv.Typ = sig.Results().At(i).Type()
+				penv.vars[fmt.Sprintf("result%d", i)] = rv
+				if n := sig.Results().At(i).Name(); n != "" && n != "_" {
+					penv.vars[n] = rv
+				}
+				if len(rt.vals) == 1 {
+					penv.vars["result"] = rv
+				}
+			}
+			t, err := penv.Goal(en.E)
+			if err != nil {
+				unsup("ensures: %v", err)
+			}
+			parts = append(parts, imp(rt.reach, t))
 		}
-		ex.addObl("post", en.Label, outReach, t, fn.Pos(), en.Text, false)
+		o := ex.addObl("post", en.Label, outReach, and(parts...), fn.Pos(), en.Text, false)
+		if len(parts) > 1 {
+			o.Parts = parts
+		}
 	}
 	allTerms := plan.terms(c)
 	res.AllTerms = allTerms
